@@ -141,13 +141,16 @@ class EditRun:
                     self.viol = {'kind': v.kind, 'step': step, 'detail': v.detail, 'op': op, 'site': self.site_full(op)}
                     break
                 except StopRun:
+                    self.stopped = True
                     break
                 self.log.append((_sha(repr(op)), out[0] if out[0] != 'exc' else exc_repr(out[1])[:60], _sha(root.src)))
-            if self.viol is None:
+            if self.viol is None and not getattr(self, 'stopped', False):
                 try:
                     pl.finish()
                 except Violation as v:
                     self.viol = {'kind': v.kind, 'step': len(self.ops), 'detail': v.detail, 'op': None}
+                except StopRun:
+                    pass
         finally:
             if old:
                 FST.set_options(**old)
